@@ -8,6 +8,7 @@ import Driver.Coproc
 import Driver.CaseRepo
 import Driver.Config
 import Driver.Flow
+import Driver.Trap
 /-
   Driver: one request per line on stdin, one answer per line on stdout.
   Unknown or malformed lines answer `bad` (never a default).
@@ -28,6 +29,8 @@ def handle (line : String) : String :=
   else if l.startsWith "verdict " then handleVerdict l
   else if l.startsWith "suite " then handleSuite l
   else if l.startsWith "isolation " then handleIsolation l
+  else if l.startsWith "trap " then handleTrap l
+  else if l.startsWith "port " then handlePort l
   else if l.startsWith "label " then handleLabel l
   else if l.startsWith "labelfile " then handleLabelFile l
   else if l.startsWith "idx " then handleIdx l
